@@ -51,6 +51,11 @@ def streams(rng, tier):
         v = gen.rand_v_wide(rng); sv = gen.spell_wide(rng, v)
         if rng.random() < 0.5: sv = gen.mutate(rng, sv, gen.MUT_CH + gen.WS_ALL + ["A", "Z", "_", "e", "(", ")"])
         out.append(Case("gen-version-wide", "v.parse", [sv]))
+        if rng.random() < 0.3:
+            sk = gen.confuse_letter(rng, gen.spell(rng, gen.rand_v_with_k(rng) if rng.random() < 0.6 else gen.rand_v(rng, local_p=0.5)))
+            if sk is not None:
+                out.append(Case("letter-confusable", "v.parse", [sk]))
+                for op in ("==", "===", "!="): out.append(Case("letter-confusable", "sp.parse", [op + sk.strip()]))
     for _ in range(3000 if q else 60000):
         s, op, V, wild = gen_spec.spec_string(rng, admissible_p=0.7)
         if rng.random() < 0.3: s = gen.mutate(rng, s)
